@@ -439,8 +439,70 @@ fn main() {
             let known = defs::dispatch(idx, &req, &mut b);
             (known, b)
         }));
+        // C05, guarded placement: the same source embedded in a larger buffer whose neighbouring bytes are
+        // chosen to continue tokens / characters.  A lexer that never reads outside the source cannot tell.
+        let mut guard_diff = String::new();
+        if !req.stack {
+            // baseline for the comparison: the exactly-sized allocation, hooks off
+            let base: Option<String> = match &r {
+                Ok((true, b0)) if !req.trace => Some(b0.clone()),
+                Ok((true, _)) => {
+                    let req0 = Req { partial: req.partial, trace: false, stack: false, max_items: req.max_items, bytes: &boxed, splits: req.splits.clone() };
+                    catch_unwind(AssertUnwindSafe(|| {
+                        let mut b = String::new();
+                        defs::dispatch(idx, &req0, &mut b);
+                        b
+                    })).ok()
+                }
+                _ => None,
+            };
+            if let Some(ref b0) = base {
+                for variant in 0..3usize {
+                    let src: &[u8] = &boxed;
+                    let last = src.last().copied().unwrap_or(b'a');
+                    let mut buf: Vec<u8> = Vec::with_capacity(src.len() + 96);
+                    const PRE: usize = 16;
+                    for k in 0..PRE {
+                        buf.push(match variant {
+                            0 => last,
+                            1 => 0xBF,
+                            _ => if src.is_empty() { b'a' } else { src[(src.len() * 16 - PRE + k) % src.len()] },
+                        });
+                    }
+                    buf.extend_from_slice(src);
+                    for k in 0..72usize {
+                        buf.push(match variant {
+                            0 => last,
+                            1 => 0x9F,
+                            _ => if src.is_empty() { b'a' } else { src[k % src.len()] },
+                        });
+                    }
+                    let req2 = Req { partial: req.partial, trace: false, stack: false, max_items: req.max_items, bytes: &buf[PRE..PRE + src.len()], splits: req.splits.clone() };
+                    let r2 = catch_unwind(AssertUnwindSafe(|| {
+                        let mut b = String::new();
+                        let known = defs::dispatch(idx, &req2, &mut b);
+                        (known, b)
+                    }));
+                    let same = match &r2 {
+                        Ok((true, b2)) => b2 == b0,
+                        _ => false,
+                    };
+                    if !same {
+                        let got = match r2 {
+                            Ok((_, b2)) => b2,
+                            Err(_) => "panic".to_string(),
+                        };
+                        let _ = write!(guard_diff, ",\"guard\":{},\"guard_got\":\"{}\"", variant, clean(&got).replace('"', "'"));
+                        break;
+                    }
+                }
+            }
+        }
         match r {
-            Ok((true, b)) => out.push_str(&b),
+            Ok((true, b)) => {
+                out.push_str(&b);
+                out.push_str(&guard_diff);
+            }
             Ok((false, _)) => out.push_str("\"unknown\":true"),
             Err(p) => {
                 let msg = if let Some(s) = p.downcast_ref::<String>() {
